@@ -516,6 +516,9 @@ func waitersBlocked(results []*cascadeResult) bool {
 		if s := st[g]; s != "semacquire" && s != "sync.WaitGroup.Wait" {
 			return false
 		}
+		if !sched.GoStackHas(g, "sync.(*WaitGroup).Wait", "AddEventAndWait") {
+			return false
+		}
 	}
 	return true
 }
